@@ -1,6 +1,6 @@
 """every clause tag of a function must be among the function's tags (else a property check would skip the function)"""
-import sys
-sys.path.insert(0, "/verif")
+import os, sys
+sys.path.insert(0, os.path.dirname(os.path.dirname(os.path.abspath(__file__))))
 from pvc import run as R
 R.load_contracts()
 from pvc.contract import REGISTRY
